@@ -61,5 +61,9 @@ TDPool == {TTD({TReq("a", TCls("int"))}), TTD({TReq("a", TCls("str"))}),
            TTD({TReq("a", TCls("int")), TOpt("b", TCls("str"))}),
            TTD({TOpt("b", TCls("int"))}),
            TTD({TReq("a", TList(TAny))}), TTD({TReq("a", TTD({TReq("x", TCls("int"))}))}),
-           TTD({TReq("a", MkUnion({TList(TAny), TList(TCls("int"))}))})}
+           TTD({TReq("a", MkUnion({TList(TAny), TList(TCls("int"))}))}),
+           \* several keys of one kind (their insertion order is not part of the structure)
+           TTD({TReq("a", TCls("int")), TReq("b", TCls("str"))}),
+           TTD({TReq("b", TCls("int")), TReq("a", TList(TCls("int"))), TReq("c", TNone)}),
+           TTD({TOpt("x", TCls("int")), TOpt("y", TCls("str")), TReq("a", TCls("int"))})}
 =============================================================================
